@@ -11,6 +11,7 @@ from ..common import build, call, exc_text, poisoned
 from ..refmodel import tree_digest
 from ..runner import Rec, h64
 
+PATHFORMS = False      # (this check spells its input paths itself)
 PROPERTY = "C12"
 LEVEL = "model_checking"
 RULE = ("case = one pooled tool configuration (reader selections / iteration / on-demand iterator, taste incl. binary_data, "
